@@ -9,5 +9,5 @@ git -C /repo worktree add -q --detach "$wt" HEAD || exit 2
 ev=$(mktemp -d /tmp/ev-try-XXXX)
 trap 'git -C /repo worktree remove --force "$wt" >/dev/null 2>&1; rm -rf "$ev"' EXIT
 ( cd "$wt" && git apply "$seed/patch.diff" ) || exit 2
-( cd /verif && VERIF_REPO="$wt" VERIF_EVIDENCE_DIR="$ev" timeout 3000 ./bin/verif check "$prop" "$@" 2>&1 | grep -v "^loaded" | cut -c1-300 | tail -12 )
+( cd /verif && VERIF_REPO="$wt" VERIF_EVIDENCE_DIR="$ev" timeout 3000 ./bin/verif check "$prop" "$@" 2>&1 | grep -v "^loaded" | cut -c1-300 | tail -40 )
 
